@@ -223,6 +223,40 @@ def run(ctx):
                 ctx._parse_assumptions([f"C09_roundtrip_{name}"], r[1])
             else:
                 unmatched.append(name)
+    # ---- transform converters (selector / geometry / spectroscopy): same theorem, tables per model class --------------
+    from py2coq import gen_tconverters as GT
+    try:
+        tsrc, ttables = GT.gen(REPO)
+        ctx.oblige("translate: field tables of gwcs/converters/{selector,geometry,spectroscopy}.py", True)
+    except (GT.Unsupported, SyntaxError, KeyError, AttributeError, IndexError) as e:
+        tsrc, ttables = None, {}
+        ctx.oblige("translate: field tables of gwcs/converters/{selector,geometry,spectroscopy}.py", False, f"{type(e).__name__}: {e}")
+    if tsrc is not None:
+        ctx.dyn_build("WC09", {"Gen_tconv": tsrc}, [], ["Gen_tconv"])
+        expected = {"LabelMapperArray", "LabelMapperDict", "LabelMapperRange", "LabelMapper", "RegionsSelector", "ToDirectionCosines",
+                    "FromDirectionCosines", "SphericalToCartesian", "CartesianToSpherical", "SellmeierGlass", "SellmeierZemax", "Snell3D",
+                    "AnglesFromGratingEquation3D", "WavelengthFromGratingEquation"}
+        ctx.oblige("every gwcs model class has a converter entry", expected <= set(ttables), f"missing: {sorted(expected - set(ttables))}")
+        for name in sorted(ttables):
+            wt, rt, ps = ttables[name]
+            spec = list(ps) + ([GT.CLASS_TAG] if any(a == GT.CLASS_TAG for _, a in wt) else [])
+            lst = "[" + "; ".join(f'"{x}"' for x in spec) + "]"
+            sel = (f"Definition e_{name} := match find (fun e => String.eqb (fst e) \"{name}\") tconv with Some e => snd e | None => ([], [], []) end.\n"
+                   f"Definition wt_{name} := fst (fst e_{name}).\nDefinition rt_{name} := snd (fst e_{name}).\n")
+            ob = ("From Coq Require Import String List. Import ListNotations. Local Open Scope string_scope.\n"
+                  "From GW Require Import C09.Roundtrip.\nFrom WC09 Require Import Gen_tconv.\n" + sel +
+                  f"Theorem C09_params_are_the_constructor_s_{name} : snd e_{name} = {'[' + '; '.join(chr(34) + x + chr(34) for x in ps) + ']'}.\nProof. vm_compute. reflexivity. Qed.\n"
+                  f"Theorem C09_tables_match_{name} : matching wt_{name} rt_{name} {lst} = true.\nProof. vm_compute. reflexivity. Qed.\n"
+                  f"Theorem C09_roundtrip_{name} : forall (value : Type) (f : assoc value) fld v, In fld {lst} -> lookup value fld f = Some v ->\n"
+                  f"  lookup value fld (from_tree value rt_{name} (to_tree value wt_{name} f)) = Some v.\n"
+                  f"Proof. intros value f fld v. apply roundtrip. exact C09_tables_match_{name}. Qed.\nPrint Assumptions C09_roundtrip_{name}.\n")
+            r = ctx.dyn_build("WC09", {"MT_" + name: ob}, [], ["MT_" + name])["MT_" + name]
+            ctx.oblige(f"C09_roundtrip_{name}: regenerated transform-converter tables carry every constructor parameter ({', '.join(spec) or 'none'})",
+                       r[0], r[1][-300:])
+            if r[0]:
+                ctx._parse_assumptions([f"C09_roundtrip_{name}"], r[1])
+            else:
+                unmatched.append(name)
     # ---- real round trips ---------------------------------------------------------------------------
     import tempfile
     from astropy.modeling import models
